@@ -56,6 +56,8 @@ ServerUDP(sh) ==
 ServerStream(sh) ==
   CASE sh \in {"junk20", "stunBadCookie"} -> Closed
     [] sh \in {"prefixStunFFEC", "prefixChanFFFF", "prefix3", "empty"} -> Silent
+    \* a complete frame longer than the inbound MTU (2004-byte ChannelData, 1700-byte STUN): dropped, the connection lives
+    [] sh \in {"cdOversize", "stunOversize"} -> Silent
     [] sh = "bindingOK" -> RespC(0)
     [] sh = "bindingUnkReq" -> RespC(420)
     [] sh = "allocNoAuth" -> RespC(401)
@@ -67,7 +69,7 @@ Client(sh) ==
   CASE sh \in {"appData", "empty", "one", "short19"} -> Cl(FALSE, FALSE)            \* application data
     [] sh \in {"stunTruncated", "stunAttrOverrun", "request"} -> Cl(TRUE, TRUE)
     [] sh \in {"respUnknownTx", "indUnknownMethod", "dataIndNoConn"} -> Cl(TRUE, FALSE)
-    [] sh \in {"dataIndNoPeer", "dataIndNoData", "attemptNoPeer", "attemptNoID"} -> Cl(TRUE, TRUE)
+    [] sh \in {"dataIndNoPeer", "dataIndNoData", "attemptNoPeer", "attemptNoID", "attemptShortID"} -> Cl(TRUE, TRUE)
     [] sh = "dataIndOK" -> Cl(TRUE, FALSE)
     [] sh = "attemptOK" -> Cl(TRUE, FALSE)
     [] sh \in {"cdKnown", "cdKnownCookie"} -> Cl(TRUE, FALSE)
@@ -103,9 +105,9 @@ MCServerUDP == {"empty", "one", "three", "short19", "cdLenOver", "cdInvalidNum",
                 "bindingOK", "bindingUnkOpt", "bindingUnkReq", "allocUnkReq", "allocNoAuth", "refreshNoAuth", "cpNoAuth",
                 "cbNoAuth", "connectNoAuth", "cbindNoAuth", "allocDupAttrs", "mutated"}
 MCServerStream == {"junk20", "stunBadCookie", "prefixStunFFEC", "prefixChanFFFF", "prefix3", "empty", "bindingOK",
-                   "bindingUnkReq", "allocNoAuth", "cdUnbound", "cdUnboundCookie", "respSuccess", "indBinding", "mutated"}
+                   "bindingUnkReq", "allocNoAuth", "cdUnbound", "cdUnboundCookie", "cdOversize", "stunOversize", "respSuccess", "indBinding", "mutated"}
 MCClient == {"appData", "empty", "one", "short19", "stunTruncated", "stunAttrOverrun", "request", "respUnknownTx",
-             "indUnknownMethod", "dataIndNoPeer", "dataIndNoData", "dataIndOK", "attemptNoPeer", "attemptNoID", "attemptOK",
+             "indUnknownMethod", "dataIndNoPeer", "dataIndNoData", "dataIndOK", "attemptNoPeer", "attemptNoID", "attemptShortID", "attemptOK",
              "cdKnown", "cdKnownCookie", "cdUnknown", "cdLenOver", "nonStunFromServer", "burstData", "burstAttempts", "mutated"}
 ASSUME PrintT("META " \o ToJson([Sys |-> "dispatch", Extra |-> [mode |-> Mode]]))
 EmitEdge == PrintT("EDGE " \o ToJson([s |-> [st |-> st, stun |-> stun], a |-> last', o |-> out', t |-> [st |-> st', stun |-> stun']]))
